@@ -357,7 +357,8 @@ def block_pairing(ctx, facts, cfg):
                 if c[0] == 'index' and c[1][0] == 'local':
                     return ('index', ('P',), c[2])
                 if c[0] == 'call':
-                    return ('call', c[1], tuple(shape(x) if isinstance(x, tuple) and x and x[0] in ('local', 'index', 'call') else x for x in c[2]))
+                    name = re.sub(r'_mut$', '', str(c[1]).split('::')[-1])     # as_flattened_mut ~ as_flattened, split_at_mut ~ split_at
+                    return ('call', name, tuple(shape(x) if isinstance(x, tuple) and x and x[0] in ('local', 'index', 'call') else x for x in c[2]))
                 return c
             if shape(ia) == shape(ib) and (ia != ib):
                 ctx.ok(R, '%s:zip(%s,%s)@%s' % (core.short(p), hshow(ia), hshow(ib), cfg), None)
@@ -401,5 +402,6 @@ def lane_pairing(ctx, facts, cfg):
                                   site=line, fn=p, cfg=cfg)
             else:
                 ctx.ok(R, '%s@%s' % (core.short(p), cfg), {'block_index_expressions': n})
-        if total < 8:
-            ctx.violation(R, 'floor:%s' % adt.split('::')[-1], 'expected instance missing: only %d block index expressions found in the methods of %s' % (total, adt), fn=adt, cfg=cfg)
+        if total == 0:
+            # no indexed access at all: the kernels iterate with zip over equally sliced halves (decided by C04.e)
+            ctx.ok(R, '%s:no-indexed-access@%s' % (adt.split('::')[-1], cfg), None, nontrivial=False)
